@@ -48,6 +48,7 @@ class World:
     rule = ""
     assumptions: list[str] = []
     fault_kinds: list[str] = []
+    state_abstraction = ""
     tier = "quick"
     selftest_n = dict(quick=(24, 16), thorough=(200, 64))  # (re-executions, fresh-interpreter runs)
 
@@ -589,6 +590,8 @@ def write_evidence(ctl, tier, cfg, wall, t_batch, selftests, reported):
         probes=st.get("probes", {}),
         checks_evaluated=st.get("checks", {}),
         distinct_abstract_states=len(ctl.states),
+        abstract_state_is=w.state_abstraction,
+        distinct_interleavings_is="digest of the sequence of (client id, operation kind) of a run, for runs with more than one client",
         distinct_interleavings=len(ctl.interleavings),
         components_real=w.components_real,
         components_stub=w.components_stub,
